@@ -56,3 +56,7 @@ def run(repo, res, tier):
     res.floor("token-pulling while loops", len(parserules.event_sites(an, "while")), 2)
     t8 = parserules.add_rule(res, an, "T8")
     decrules.rule_gd1(repo, res)
+    # ParseError.token is read by OmniParser.parse_assignment_statement as a Token (err.token.pos): a ParseError
+    # that carries anything else surfaces as AttributeError, outside the documented types
+    from .. import effects
+    effects.rule_e5(repo, res)
